@@ -799,3 +799,160 @@ Proof.
   split; vm_compute; reflexivity.
 Qed.
 (* ---- end audit1-c04 (prefix) ---- *)
+
+(* ==== round3 c04val begin ==== *)
+(* Audit round 3, item "header VALUE equality" (the property text says "returns the same link,
+   link-extension, network and transport HEADERS as converting the slicing result"; hagree compares
+   the header WINDOWS).
+
+   C04_header_slices_hold_input: every slice stored in a PacketHeaders model result -- Ethernet II
+   header, each VLAN / MACsec header, IPv4 header + authentication header, IPv6 header + each of the
+   six extension slots, ARP packet, transport header (incl. the ICMPv4 8/20 byte header), payload --
+   lies inside the input and holds the bytes of the input at its position (`in_win`); no hypothesis
+   on the bytes.  (Both families model a decoded struct as the slice it was decoded from; this
+   theorem is what makes "same window" mean "same bytes".)
+
+   C04_header_values_eq_slices: whenever PacketHeaders.from_* and the cut slicing result are both
+   Ok (they are Ok together: C04_headers_eq_slices), the VALUES agree header by header:
+   `hvals_of_h` = to_header() / to_packet() / header() (accessor models of Parse/Access.v:
+   Ethernet2A, SingleVlanA, MacsecHeaderA, Ipv4HeaderA, IpAuthHeaderA, Ipv6HeaderA,
+   ArpPacketA.to_packet, UdpA, TcpHeaderSliceA, Icmpv4A.header, Icmpv6A.header) of the struct-side
+   slice; `hvals_of_s` = the same conversions of the slices of the slicing result, as
+   SlicedPacket -> to_header() does (Ethernet2Slice / SingleVlanSlice / MacsecSlice.header /
+   Ipv4Slice.header + extensions.auth / Ipv6Slice.header / ArpPacketSlice / UdpSlice /
+   TcpSlice::to_header (header_len, slice) / Icmpv4Slice / Icmpv6Slice).  Equality of `res` values:
+   both sides are the same Ok value (or would fail alike).  The struct Ipv6Extensions is the
+   subject of C04_ipv6_exts_to_header below.  Proofs: Parse/HdrVal.v (definitions),
+   HdrValStruct.v, HdrValProofs.v; only existing models are composed. *)
+From EP Require Import Parse.HdrVal Parse.HdrValStruct Parse.HdrValProofs.
+
+Theorem C04_header_slices_hold_input : forall bs et,
+  slices_hold bs (PacketHeaders.from_ethernet_slice bs) /\
+  slices_hold bs (PacketHeaders.from_ether_type et bs) /\
+  slices_hold bs (PacketHeaders.from_ip_slice bs).
+Proof. exact hdr_slices_hold. Qed.
+Print Assumptions C04_header_slices_hold_input.
+Check (eq_refl : slices_hold =
+  fun bs h => forall hp, h = Ok hp -> Forall (in_win bs) (hp_slices hp)).
+Check (eq_refl : in_win =
+  fun bs s => s_off s + s_len s <= len bs /\ snd s = take (s_len s) (drop (s_off s) bs)).
+Check (eq_refl : hp_slices = fun p => hp_header_slices p ++ hpayload_slices (h_payload p)).
+Check (eq_refl : hp_header_slices =
+  fun p => olist (h_link p) ++ map hext_slice (h_exts p) ++
+           match h_net p with Some n => hnet_slices n | None => [] end ++
+           olist (option_map htr_slice (h_transport p))).
+Check (eq_refl : hnet_slices =
+  fun n => match n with
+           | HnArp a => [a]
+           | HnIp (IhV4 h a) => h :: olist a
+           | HnIp (IhV6 h x) => h :: exts6_slices x
+           end).
+Check (eq_refl : exts6_slices =
+  fun x => olist (x_hbh x) ++ olist (x_dest x) ++ olist (x_route x) ++ olist (x_fdest x) ++
+           olist (x_frag x) ++ olist (x_auth x)).
+
+Theorem C04_header_values_eq_slices : forall bs et, bytes_ok bs ->
+  vals_agree (PacketHeaders.from_ethernet_slice bs) (Cut.from_ethernet true bs) /\
+  vals_agree (PacketHeaders.from_ether_type et bs) (Cut.from_ether_type true et bs) /\
+  vals_agree (PacketHeaders.from_ip_slice bs) (Cut.from_ip true bs).
+Proof. exact hdr_vals_eq. Qed.
+Print Assumptions C04_header_values_eq_slices.
+Check (eq_refl : vals_agree =
+  fun h s => forall hp sp, h = Ok hp -> s = Ok sp -> hvals_of_h hp = hvals_of_s sp).
+Check (eq_refl : hvals_of_h =
+  fun p => mkVals (option_map (fun h => Ethernet2A.to_header (mkEth2 0 h)) (h_link p))
+                  (map hval_ext (h_exts p)) (option_map hval_net (h_net p))
+                  (option_map hval_tr (h_transport p))).
+Check (eq_refl : hvals_of_s =
+  fun p => mkVals (match sp_link p with Some l => sval_link l | None => None end)
+                  (map sval_ext (sp_exts p)) (option_map sval_net (sp_net p))
+                  (option_map sval_tr (sp_transport p))).
+Check (eq_refl : hval_tr =
+  fun t => match t with
+           | HtUdp h => TvUdp (UdpA.to_header h)
+           | HtTcp h => TvTcp (TcpHeaderSliceA.to_header h)
+           | HtIcmpv4 h => TvIcmpv4 (Icmpv4A.header h)
+           | HtIcmpv6 h => TvIcmpv6 (Icmpv6A.header h)
+           end).
+Check (eq_refl : sval_tr =
+  fun t => match t with
+           | TrUdp s => TvUdp (UdpA.to_header s)
+           | TrTcp hl s => TvTcp (TcpSliceA.to_header (hl, s))
+           | TrIcmpv4 s => TvIcmpv4 (Icmpv4A.header s)
+           | TrIcmpv6 s => TvIcmpv6 (Icmpv6A.header s)
+           end).
+
+(* non-vacuity: the F5 packet (Ethernet / VLAN / IPv4 / UDP): both results exist, the slices of
+   the struct result are the windows 0+14, 14+4, 18+20, 38+8, 46+0, and the values are the decoded
+   fields (addresses, ether types 0x8100 / 0x0800, VLAN id 5, TTL 64, protocol 17, ports 1 -> 2) *)
+Example C04_ex_values :
+  bytes_ok ex_f5 /\
+  exists hp sp,
+    PacketHeaders.from_ethernet_slice ex_f5 = Ok hp /\ Cut.from_ethernet true ex_f5 = Ok sp /\
+    map win_of (hp_slices hp) = [(0, 14); (14, 4); (18, 20); (38, 8); (46, 0)] /\
+    hvals_of_s sp =
+      mkVals (Some (Ok ([7;8;9;10;11;12], [1;2;3;4;5;6], 33024)))
+             [EvVlan (Ok (0, false, 5, 2048))]
+             (Some (NvIpv4 (Ok (0, 0, 32, 0, false, false, 0, 64, 17, 0, [1;2;3;4], [5;6;7;8], [])) None))
+             (Some (TvUdp (Ok (1, 2, 8, 0)))).
+Proof.
+  split; [apply bytes_okb_spec; vm_compute; reflexivity|].
+  do 2 eexists. split; [vm_compute; reflexivity|]. split; [vm_compute; reflexivity|].
+  split; vm_compute; reflexivity.
+Qed.
+
+(* The struct Ipv6Extensions.  SlicedPacket -> to_header() converts an Ipv6Slice with
+   `IpSlice::to_header`, which re-decodes the stored extension area with the struct decoder
+   Ipv6Extensions::from_slice and expects Ok (model: IpSliceToHeaderA.v6_exts_to_header,
+   Parse/LaxAccess.v; C01/C02 prove it never fails on a strict Ipv6Slice).
+   C04_ipv6_exts_to_header: whenever PacketHeaders.from_* returns an IPv6 network layer (header
+   slice hd, struct x), the cut slicing result is Ok with an IPv6 layer v on the same header slice
+   and `v6_exts_to_header v = Ok x`: the conversion of the slicing result IS the struct that
+   struct decoding returned -- all six slots, as slices (same windows, same bytes), hence the same
+   to_header() values slot by slot (`exts6_val`).  With C04_header_values_eq_slices this is header
+   VALUE equality for every header of the two strict families, all three entry points.
+   Proof: Parse/HdrValExts.v. *)
+From EP Require Import Parse.LaxAccess Parse.HdrValExts.
+
+Theorem C04_ipv6_exts_to_header : forall bs et, bytes_ok bs ->
+  exts_to_header_agree (PacketHeaders.from_ethernet_slice bs) (Cut.from_ethernet true bs) /\
+  exts_to_header_agree (PacketHeaders.from_ether_type et bs) (Cut.from_ether_type true et bs) /\
+  exts_to_header_agree (PacketHeaders.from_ip_slice bs) (Cut.from_ip true bs).
+Proof. exact hdr_exts_to_header. Qed.
+Print Assumptions C04_ipv6_exts_to_header.
+Check (eq_refl : exts_to_header_agree =
+  fun h s =>
+    forall hp hd x, h = Ok hp -> h_net hp = Some (HnIp (IhV6 hd x)) ->
+    exists sp v, s = Ok sp /\ sp_net sp = Some (NtIpv6 v) /\ v6_header v = hd /\
+                 IpSliceToHeaderA.v6_exts_to_header v = Ok x).
+
+(* the struct decoder on a prefix of its input that contains everything it consumed *)
+Theorem C04_ipv6_struct_decoder_prefix : forall nh0 hp x nh' r u I,
+  Ipv6Extensions.from_slice nh0 hp = Ok (x, nh', r) -> pre u I hp -> s_len hp - s_len r <= u ->
+  exists rI, Ipv6Extensions.from_slice nh0 I = Ok (x, nh', rI).
+Proof. exact struct_exts_pre. Qed.
+Print Assumptions C04_ipv6_struct_decoder_prefix.
+
+(* non-vacuity: the packets of C04_ex_slots (five extension headers, all slots but hop-by-hop
+   filled) and of C04_ex_exception (stopped in front of a second fragment header) *)
+Example C04_ex_exts_to_header :
+  (exists hp hd x sp v,
+     PacketHeaders.from_ip_slice ex_order = Ok hp /\ h_net hp = Some (HnIp (IhV6 hd x)) /\
+     Cut.from_ip true ex_order = Ok sp /\ sp_net sp = Some (NtIpv6 v) /\
+     IpSliceToHeaderA.v6_exts_to_header v = Ok x /\
+     slot_wins x = [None; Some (48, 8); Some (56, 8); Some (64, 8); Some (40, 8); Some (72, 12)] /\
+     xv_frag (exts6_val x) = Some (Ok (60, 0, false, 0))) /\
+  (exists hp hd x sp v,
+     PacketHeaders.from_ip_slice ex_dup = Ok hp /\ h_net hp = Some (HnIp (IhV6 hd x)) /\
+     Cut.from_ip true ex_dup = Ok sp /\ sp_net sp = Some (NtIpv6 v) /\
+     stopped_at_ext (Ok sp) = true /\
+     IpSliceToHeaderA.v6_exts_to_header v = Ok x /\
+     slot_wins x = [None; None; None; None; Some (40, 8); None]).
+Proof.
+  split; do 5 eexists.
+  - split; [vm_compute; reflexivity|]. split; [reflexivity|]. split; [vm_compute; reflexivity|].
+    split; [reflexivity|]. split; [vm_compute; reflexivity|]. split; vm_compute; reflexivity.
+  - split; [vm_compute; reflexivity|]. split; [reflexivity|]. split; [vm_compute; reflexivity|].
+    split; [reflexivity|]. split; [vm_compute; reflexivity|]. split; vm_compute; reflexivity.
+Qed.
+(* ==== round3 c04val end ==== *)
